@@ -226,8 +226,10 @@ mod verif_search {
         let mut n = 0u64;
         for round in 0..40 { for &len in lens.iter() {
             let mut key = [0u8; KL]; for k in key.iter_mut() { *k = rng.next() as u8; }
+            // structured keys first: all-zero, all-ones, zero bytes at either end
+            match round { 0 => key = [0u8; KL], 1 => key = [0xffu8; KL], 2 => { for z in 0..8 { key[KL - 1 - z] = 0; } }, 3 => { for z in 0..8 { key[z] = 0; } }, _ => {} }
             let idx = (rng.next() % KL as u64) as u8; let prev = rng.next() as u8;
-            let plain: Vec<u8> = (0..len).map(|_| rng.next() as u8).collect();
+            let plain: Vec<u8> = (0..len).map(|_| match round { 4 => 0u8, 5 => 0xff, _ => rng.next() as u8 }).collect();
             let (want, wi, wp) = reference(&key, idx, prev, &plain);
             // sender: random chunking (with empty calls); receiver: a different random chunking
             let mut e = EncrypterHalf { session_key: key, index: idx, previous_value: prev };
@@ -251,5 +253,206 @@ mod verif_search {
             }
         } }
         println!("REPLAY-STATS c07_stream inputs={} all-ok", n);
+    }
+
+    // ---- C11 / C12: every entry point (combined object, halves, typed helpers, Read/Write wrappers, clone, split, unsplit) against
+    // the raw recurrence applied to the header's wire layout.  Reference state is kept outside the library.
+    struct RefDir { key: [u8; KL], i: usize, p: u8 }
+    impl RefDir {
+        fn enc(&mut self, plain: &[u8]) -> Vec<u8> { let mut o = Vec::new(); for x in plain { let c = (x ^ self.key[self.i]).wrapping_add(self.p); o.push(c); self.p = c; self.i = (self.i + 1) % KL; } o }
+        fn dec(&mut self, wire: &[u8]) -> Vec<u8> { let mut o = Vec::new(); for c in wire { o.push(c.wrapping_sub(self.p) ^ self.key[self.i]); self.p = *c; self.i = (self.i + 1) % KL; } o }
+    }
+    enum Obj { Whole(HeaderCrypto), Halves(EncrypterHalf, DecrypterHalf) }
+    impl Obj {
+        fn e(&mut self) -> &mut EncrypterHalf { match self { Obj::Whole(h) => h.encrypter(), Obj::Halves(e, _) => e } }
+        fn d(&mut self) -> &mut DecrypterHalf { match self { Obj::Whole(h) => h.decrypter(), Obj::Halves(_, d) => d } }
+    }
+    /// delivers `data` in random fragments, sprinkles Interrupted, fails with `kind` once `fail_at` bytes have been delivered
+    struct FragReader<'a> { data: &'a [u8], pos: usize, fail_at: Option<usize>, kind: std::io::ErrorKind, rng: u64 }
+    impl<'a> std::io::Read for FragReader<'a> {
+        fn read(&mut self, buf: &mut [u8]) -> std::io::Result<usize> {
+            self.rng ^= self.rng << 13; self.rng ^= self.rng >> 7; self.rng ^= self.rng << 17;
+            if self.rng % 4 == 0 { return Err(std::io::Error::from(std::io::ErrorKind::Interrupted)); }
+            if let Some(f) = self.fail_at { if self.pos >= f { return Err(std::io::Error::from(self.kind)); } }
+            let limit = self.fail_at.unwrap_or(self.data.len()).min(self.data.len());
+            let avail = limit - self.pos;
+            if avail == 0 || buf.is_empty() { return Ok(0); }
+            let n = 1 + (self.rng as usize % avail.min(buf.len()));
+            buf[..n].copy_from_slice(&self.data[self.pos..self.pos + n]); self.pos += n; Ok(n)
+        }
+    }
+    /// accepts bytes in random fragments, sprinkles Interrupted, fails with `kind` once `fail_at` bytes have been accepted
+    struct FragWriter { got: Vec<u8>, fail_at: Option<usize>, kind: std::io::ErrorKind, rng: u64 }
+    impl std::io::Write for FragWriter {
+        fn write(&mut self, buf: &[u8]) -> std::io::Result<usize> {
+            self.rng ^= self.rng << 13; self.rng ^= self.rng >> 7; self.rng ^= self.rng << 17;
+            if self.rng % 4 == 0 { return Err(std::io::Error::from(std::io::ErrorKind::Interrupted)); }
+            if let Some(f) = self.fail_at { if self.got.len() >= f { return Err(std::io::Error::from(self.kind)); } }
+            if buf.is_empty() { return Ok(0); }
+            let room = self.fail_at.map(|f| f - self.got.len()).unwrap_or(buf.len()).min(buf.len());
+            let n = 1 + (self.rng as usize % room);
+            self.got.extend_from_slice(&buf[..n]); Ok(n)
+        }
+        fn flush(&mut self) -> std::io::Result<()> { Ok(()) }
+    }
+    const KINDS: [std::io::ErrorKind; 5] = [std::io::ErrorKind::UnexpectedEof, std::io::ErrorKind::TimedOut, std::io::ErrorKind::ConnectionReset, std::io::ErrorKind::BrokenPipe, std::io::ErrorKind::Other];
+    #[test]
+    fn verif_search_c11_vanilla_entry_points() {
+        let seed = std::env::var("VERIF_SEED").ok().and_then(|s| s.parse::<u64>().ok()).unwrap_or(0) ^ 0x9E3779B97F4A7C15;
+        let mut rng = Rng(seed);
+        let mut n = 0u64;
+        let sizes = [0u16, 1, 4, 0xff, 0x100, 0x7fff, 0x8000, 0xfffe, 0xffff, 0x1234];
+        let opcodes = [0u32, 1, 0xff, 0x100, 0xffff, 0x1_0000, 0x00ff_ffff, 0x8000_0000, 0xffff_ffff, 0x1234_5678];
+        macro_rules! fail { ($($a:tt)*) => { { println!("REPLAY-FAIL c11_vanilla_entry_points {}", format!($($a)*)); return; } } }
+        for session in 0..600u32 {
+            let mut sk = [0u8; 40]; for x in sk.iter_mut() { *x = rng.next() as u8; }
+            match session { 0 => sk = [0u8; 40], 1 => sk = [0xff; 40], 2 => { for z in 0..8 { sk[39 - z] = 0; } }, 3 => { for z in 0..8 { sk[z] = 0; } }, _ => {} }
+            let dk: [u8; KL] = sk;
+            let mut re = RefDir { key: dk, i: 0, p: 0 };
+            let mut rd = RefDir { key: dk, i: 0, p: 0 };
+            let mut obj = Obj::Whole(HeaderCrypto::new(sk));
+            for step in 0..60u32 {
+                n += 1;
+                let op = rng.next() % 16;
+                let size = sizes[(rng.next() % sizes.len() as u64) as usize];
+                let opcode = if rng.next() % 3 == 0 { rng.next() as u32 } else { opcodes[(rng.next() % opcodes.len() as u64) as usize] };
+                let sh: Vec<u8> = vec![(size >> 8) as u8, size as u8, opcode as u16 as u8, ((opcode as u16) >> 8) as u8];
+                let ch: Vec<u8> = vec![(size >> 8) as u8, size as u8, opcode as u8, (opcode >> 8) as u8, (opcode >> 16) as u8, (opcode >> 24) as u8];
+                let via_whole = rng.next() % 2 == 0;
+                match op {
+                    0 => { // raw encrypt of a chunk
+                        let len = (rng.next() % 13) as usize; let plain: Vec<u8> = (0..len).map(|_| rng.next() as u8).collect();
+                        let want = re.enc(&plain); let mut buf = plain.clone();
+                        match &mut obj { Obj::Whole(h) if via_whole => h.encrypt(&mut buf), _ => obj.e().encrypt(&mut buf) }
+                        if buf != want { fail!("encrypt of a {}-byte chunk differs from the recurrence (session {}, step {})", len, session, step); }
+                    }
+                    1 => { // raw decrypt of a chunk
+                        let len = (rng.next() % 13) as usize; let wire: Vec<u8> = (0..len).map(|_| rng.next() as u8).collect();
+                        let want = rd.dec(&wire); let mut buf = wire.clone();
+                        match &mut obj { Obj::Whole(h) if via_whole => h.decrypt(&mut buf), _ => obj.d().decrypt(&mut buf) }
+                        if buf != want { fail!("decrypt of a {}-byte chunk differs from the recurrence (session {}, step {})", len, session, step); }
+                    }
+                    2 => { let want = re.enc(&sh);
+                        let got = match &mut obj { Obj::Whole(h) if via_whole => h.encrypt_server_header(size, opcode as u16), _ => obj.e().encrypt_server_header(size, opcode as u16) };
+                        if got.to_vec() != want { fail!("encrypt_server_header(size={:#x}, opcode={:#x}) != raw encrypt of be16(size) le16(opcode)", size, opcode as u16); } }
+                    3 => { let want = re.enc(&ch);
+                        let got = match &mut obj { Obj::Whole(h) if via_whole => h.encrypt_client_header(size, opcode), _ => obj.e().encrypt_client_header(size, opcode) };
+                        if got.to_vec() != want { fail!("encrypt_client_header(size={:#x}, opcode={:#x}) != raw encrypt of be16(size) le32(opcode)", size, opcode); } }
+                    4 | 5 => { // Write wrappers through a fragmenting, interrupting writer
+                        let want = re.enc(if op == 4 { &sh } else { &ch });
+                        let mut w = FragWriter { got: Vec::new(), fail_at: None, kind: std::io::ErrorKind::Other, rng: rng.next() | 1 };
+                        let r = match (&mut obj, op) {
+                            (Obj::Whole(h), 4) if via_whole => h.write_encrypted_server_header(&mut w, size, opcode as u16),
+                            (Obj::Whole(h), _) if via_whole => h.write_encrypted_client_header(&mut w, size, opcode),
+                            (o, 4) => o.e().write_encrypted_server_header(&mut w, size, opcode as u16),
+                            (o, _) => o.e().write_encrypted_client_header(&mut w, size, opcode),
+                        };
+                        if r.is_err() || w.got != want { fail!("write_encrypted_{}_header: result {:?}, {} of {} expected bytes written / bytes differ", if op == 4 { "server" } else { "client" }, r.map_err(|e| e.kind()), w.got.len(), want.len()); }
+                    }
+                    6 => { let wire: Vec<u8> = (0..4).map(|_| rng.next() as u8).collect(); let p = rd.dec(&wire);
+                        let mut a = [0u8; 4]; a.copy_from_slice(&wire);
+                        let got = match &mut obj { Obj::Whole(h) if via_whole => h.decrypt_server_header(a), _ => obj.d().decrypt_server_header(a) };
+                        if got.size != u16::from_be_bytes([p[0], p[1]]) || got.opcode != u16::from_le_bytes([p[2], p[3]]) { fail!("decrypt_server_header gives size={:#x} opcode={:#x} for plaintext {:02x?}", got.size, got.opcode, p); } }
+                    7 => { let wire: Vec<u8> = (0..6).map(|_| rng.next() as u8).collect(); let p = rd.dec(&wire);
+                        let mut a = [0u8; 6]; a.copy_from_slice(&wire);
+                        let got = match &mut obj { Obj::Whole(h) if via_whole => h.decrypt_client_header(a), _ => obj.d().decrypt_client_header(a) };
+                        if got.size != u16::from_be_bytes([p[0], p[1]]) || got.opcode != u32::from_le_bytes([p[2], p[3], p[4], p[5]]) { fail!("decrypt_client_header gives size={:#x} opcode={:#x} for plaintext {:02x?}", got.size, got.opcode, p); } }
+                    8 | 9 => { // Read wrappers: fragmented, interrupted; the reader holds more bytes than the header and exactly the header is consumed
+                        let hl = if op == 8 { 4 } else { 6 };
+                        let data: Vec<u8> = (0..hl + 3).map(|_| rng.next() as u8).collect();
+                        let p = rd.dec(&data[..hl]);
+                        let mut r = FragReader { data: &data, pos: 0, fail_at: None, kind: std::io::ErrorKind::Other, rng: rng.next() | 1 };
+                        let ok = if op == 8 {
+                            let g = match &mut obj { Obj::Whole(h) if via_whole => h.read_and_decrypt_server_header(&mut r), _ => obj.d().read_and_decrypt_server_header(&mut r) };
+                            matches!(g, Ok(h) if h.size == u16::from_be_bytes([p[0], p[1]]) && h.opcode == u16::from_le_bytes([p[2], p[3]]))
+                        } else {
+                            let g = match &mut obj { Obj::Whole(h) if via_whole => h.read_and_decrypt_client_header(&mut r), _ => obj.d().read_and_decrypt_client_header(&mut r) };
+                            matches!(g, Ok(h) if h.size == u16::from_be_bytes([p[0], p[1]]) && h.opcode == u32::from_le_bytes([p[2], p[3], p[4], p[5]]))
+                        };
+                        if !ok || r.pos != hl { fail!("read_and_decrypt_{}_header through a fragmenting reader: wrong header or {} bytes consumed instead of {}", if op == 8 { "server" } else { "client" }, r.pos, hl); }
+                    }
+                    10 | 11 => { // reader failing before the header is complete: error with that kind, decrypter untouched (the reference does not move)
+                        let hl = if op == 10 { 4 } else { 6 };
+                        let data: Vec<u8> = (0..hl).map(|_| rng.next() as u8).collect();
+                        let at = (rng.next() % hl as u64) as usize; let kind = KINDS[(rng.next() % 5) as usize];
+                        let mut r = FragReader { data: &data, pos: 0, fail_at: Some(at), kind, rng: rng.next() | 1 };
+                        let e = if op == 10 {
+                            match &mut obj { Obj::Whole(h) if via_whole => h.read_and_decrypt_server_header(&mut r).err(), _ => obj.d().read_and_decrypt_server_header(&mut r).err() }
+                        } else {
+                            match &mut obj { Obj::Whole(h) if via_whole => h.read_and_decrypt_client_header(&mut r).err(), _ => obj.d().read_and_decrypt_client_header(&mut r).err() }
+                        };
+                        match e { Some(e) if e.kind() == kind => {}, other => fail!("reader failing with {:?} after {} of {} bytes: got {:?}", kind, at, hl, other.map(|e| e.kind())) }
+                    }
+                    12 => { // failing writer: the error is reported with its kind; the session is then abandoned (the statement fixes no state here)
+                        let hl = if via_whole { 4 } else { 6 };
+                        let at = (rng.next() % hl as u64) as usize; let kind = KINDS[(rng.next() % 5) as usize];
+                        let mut w = FragWriter { got: Vec::new(), fail_at: Some(at), kind, rng: rng.next() | 1 };
+                        let r = if via_whole { obj.e().write_encrypted_server_header(&mut w, size, opcode as u16) } else { obj.e().write_encrypted_client_header(&mut w, size, opcode) };
+                        match r { Err(e) if e.kind() == kind => {}, other => fail!("writer failing with {:?} after {} of {} bytes: got {:?}", kind, at, hl, other.map_err(|e| e.kind())) }
+                        break;
+                    }
+                    13 => { // continue on a clone; the original must stay usable and unaffected (checked by advancing the clone only)
+                        obj = match &obj { Obj::Whole(h) => Obj::Whole(h.clone()), Obj::Halves(e, d) => Obj::Halves(e.clone(), d.clone()) };
+                    }
+                    14 => { // split
+                        obj = match obj { Obj::Whole(h) => { let (e, d) = h.split(); Obj::Halves(e, d) }, o => o };
+                    }
+                    _ => { // re-join (Vanilla): succeeds for the two halves of one session; refused for a half of another session (key differing in one late byte)
+                        obj = match obj {
+                            Obj::Halves(e, d) => {
+                                let mut other = sk; other[39] ^= 0x01;
+                                let (_, foreign) = HeaderCrypto::new(other).split();
+                                if e.is_pair_of(&foreign) || foreign.is_pair_of(&e) || !e.is_pair_of(&d) || !d.is_pair_of(&e) { fail!("is_pair_of is wrong for keys differing in the last byte / for the two halves of one session"); }
+                                if e.clone().unsplit(foreign).is_ok() { fail!("unsplit accepted a decrypter of another session (keys differ in the last byte)"); }
+                                match e.unsplit(d) { Ok(h) => Obj::Whole(h), Err(_) => fail!("unsplit refused the two halves of one session") }
+                            }
+                            o => o,
+                        }; }
+                }
+            }
+        }
+        println!("REPLAY-STATS c11_vanilla_entry_points inputs={} all-ok", n);
+    }
+
+    /// C06 fallback (bounded): the world-login proof against an independent SHA-1 composition, seeds in their roles, acceptance exactly for
+    /// the whole 20-byte proof, both proofs reported on refusal, crypto keyed with the presented session key
+    #[test]
+    fn verif_search_c06_vanilla_world_login() {
+        use sha1::{Digest, Sha1};
+        let seed = std::env::var("VERIF_SEED").ok().and_then(|s| s.parse::<u64>().ok()).unwrap_or(0) ^ 0x9E3779B97F4A7C15;
+        let mut rng = Rng(seed);
+        let mut n = 0u64;
+        macro_rules! fail { ($($a:tt)*) => { { println!("REPLAY-FAIL c06_vanilla_world_login_search {}", format!($($a)*)); return; } } }
+        let seeds = [0u32, 1, 0xffff_ffff, 0x0102_0304, 0x8000_0000, 0x0000_ff00];
+            for round in 0..150u32 {
+                let ulen = match round { 0 => 1, 1 => 16, _ => 1 + (rng.next() % 16) as usize };
+                let uname: String = (0..ulen).map(|_| (0x20 + (rng.next() % 0x5f) as u8) as char).collect();
+                let user = crate::normalized_string::NormalizedString::new(&uname).unwrap();
+                let mut sk = [0u8; 40]; for x in sk.iter_mut() { *x = rng.next() as u8; }
+                match round { 2 => sk = [0u8; 40], 3 => { for z in 0..8 { sk[39 - z] = 0; } }, 4 => { for z in 0..8 { sk[z] = 0; } }, _ => {} }
+                let cs = if round < 36 { seeds[(round % 6) as usize] } else { rng.next() as u32 };
+                let ss = if round < 36 { seeds[(round / 6) as usize] } else { rng.next() as u32 };
+                n += 1;
+                let want: [u8; 20] = Sha1::new().chain_update(uname.to_ascii_uppercase().as_bytes()).chain_update([0u8; 4]).chain_update(cs.to_le_bytes()).chain_update(ss.to_le_bytes()).chain_update(sk).finalize().into();
+                let (cp, mut cc) = ProofSeed::from_specific_seed(cs).into_client_header_crypto(&user, sk, ss);
+                if ProofSeed::from_specific_seed(cs).seed() != cs { fail!("{} ProofSeed::seed does not return the seed", "vanilla"); }
+                if cp != want { fail!("{} client proof is not SHA1(U | 0 | client seed {:#x} | server seed {:#x} | K) user={:?}", "vanilla", cs, ss, uname); }
+                let mut sc = match ProofSeed::from_specific_seed(ss).into_server_header_crypto(&user, sk, want, cs) { Ok(c) => c, Err(_) => fail!("{} server refused the correct proof (client seed {:#x}, server seed {:#x})", "vanilla", cs, ss) };
+                for pos in 0..20 { for mask in [0x01u8, 0x80] { let mut bad = want; bad[pos] ^= mask;
+                    match ProofSeed::from_specific_seed(ss).into_server_header_crypto(&user, sk, bad, cs) {
+                        Ok(_) => fail!("{} server accepted a proof altered in byte {}", "vanilla", pos),
+                        Err(e) => if e.client_proof != bad || e.server_proof != want { fail!("{} MatchProofsError does not carry (presented, computed) proofs", "vanilla"); } } } }
+                { let mut bad = want; bad[0] ^= 0x40; bad[19] ^= 0x40; if ProofSeed::from_specific_seed(ss).into_server_header_crypto(&user, sk, bad, cs).is_ok() { fail!("{} server accepted a proof altered in two bytes by the same mask", "vanilla"); } }
+                // the two objects are keyed alike: traffic round-trips in both directions
+                let plain: Vec<u8> = (0..23).map(|_| rng.next() as u8).collect();
+                let mut w = plain.clone(); cc.encrypt(&mut w); sc.decrypt(&mut w); if w != plain { fail!("{} client->server traffic does not round-trip after the world login", "vanilla"); }
+                let mut w = plain.clone(); sc.encrypt(&mut w); cc.decrypt(&mut w); if w != plain { fail!("{} server->client traffic does not round-trip after the world login", "vanilla"); }
+                // and with the presented session key: a peer keyed with a key differing in one byte does not decrypt it
+                let mut other = sk; other[(round % 40) as usize] ^= 0x20;
+                let (_, mut oc) = ProofSeed::from_specific_seed(cs).into_client_header_crypto(&user, other, ss);
+                let mut a = vec![0u8; 64]; let mut b = vec![0u8; 64]; cc.encrypt(&mut a); oc.encrypt(&mut b);
+                if a == b { fail!("{} crypto objects for session keys differing in byte {} produce the same 64 bytes", "vanilla", round % 40); }
+            }
+        println!("REPLAY-STATS c06_vanilla_world_login_search inputs={} all-ok", n);
     }
 }
